@@ -151,4 +151,87 @@ theorem warpW_history (G : Geom α) (big : α) (w : α → α → α) (dim : Dim
     rw [dtwOn_eq_dtw dist w rows0 t1 t2 hl h1 h2, dtwOn_eq_dtw dist w (freshRows t1) t1 t2 (by simp [freshRows]) h1 h2]
 
 end warp
+/-! ### histories: a track1 that carries the feature rows of an earlier matching -/
+section historyX
+variable {α : Type} [Add α] [Sub α] [Mul α] [Div α] [Neg α] [LinearOrder α] [OfNat α 0] [OfNat α 1] [OfScientific α]
+
+/-- the plain variant on a track1 that carries earlier feature rows: same result as on a track1 without them -/
+theorem warpOnX_history (pow : α → α → α) (G : Geom α) (big : α) (p : PArgX α) (dim : DimArg α) (t1 t2 : List (Pt α))
+    (rows0 : List (Row α)) (hl : rows0.length = t1.length) (h1 : 0 < t1.length) (h2 : 0 < t2.length) :
+    warpOnX pow G big false p dim { pts := t1, rows := rows0 } t2 = warpOnX pow G big false p dim (TrackObj.fresh t1) t2 := by
+  unfold warpOnX
+  cases p2weightX pow p with
+  | error e => rfl
+  | ok w => exact warpW_history G big w dim t1 t2 rows0 hl h1 h2
+
+theorem matchCallX_history (pow : α → α → α) (G : Geom α) (big : α) (mode : Nat) (hm : mode ≠ 3) (p : PArgX α) (dim : DimArg α)
+    (t1 t2 : List (Pt α)) (rows0 : List (Row α)) (hl : rows0.length = t1.length) (h1 : 0 < t1.length) (h2 : 0 < t2.length) :
+    matchCallX pow G big mode p dim { pts := t1, rows := rows0 } t2 = matchCallX pow G big mode p dim (TrackObj.fresh t1) t2 := by
+  unfold matchCallX
+  by_cases m1 : mode = 1
+  · simp [m1]
+  · by_cases m4 : mode = 4
+    · simp only [m1, m4, if_true, if_false]
+      exact warpOnX_history pow G big _ dim t1 t2 rows0 hl h1 h2
+    · by_cases m2 : mode = 2
+      · simp only [m1, m4, m2, if_true, if_false]
+        exact warpOnX_history pow G big _ dim t1 t2 rows0 hl h1 h2
+      · simp [m1, m4, m2, hm]
+
+theorem compareCallX_history (pow : α → α → α) (G : Geom α) (root : Nat → α → α) (ofNat : Nat → α) (big : α) (mode : Nat)
+    (hm : mode ≠ 107) (p : PArgX α) (dim : DimArg α) (t1 t2 : List (Pt α)) (rows0 : List (Row α)) (hl : rows0.length = t1.length)
+    (h1 : 0 < t1.length) (h2 : 0 < t2.length) :
+    compareCallX pow G root ofNat big mode p dim { pts := t1, rows := rows0 } t2
+      = compareCallX pow G root ofNat big mode p dim (TrackObj.fresh t1) t2 := by
+  unfold compareCallX
+  split
+  · rfl
+  · by_cases m8 : mode = 108
+    · simp only [m8, if_true]
+      unfold warpCompareX
+      rw [warpOnX_history pow G big _ dim t1 t2 rows0 hl h1 h2]
+    · by_cases m6 : mode = 106
+      · rw [if_neg m8, if_pos m6, if_neg m8, if_pos m6]
+        unfold warpCompareX
+        rw [warpOnX_history pow G big _ dim t1 t2 rows0 hl h1 h2]
+      · simp [m8, m6, hm]
+
+theorem warpOnX_rows_length (pow : α → α → α) (G : Geom α) (big : α) (p : PArgX α) (dim : DimArg α) (t1 t2 : List (Pt α))
+    (h1 : 0 < t1.length) (h2 : 0 < t2.length) (o : Out α)
+    (h : warpOnX pow G big false p dim (TrackObj.fresh t1) t2 = .ok o) : o.rows.length = t1.length := by
+  unfold warpOnX warpW at h
+  have hne : t1.isEmpty = false := by cases t1 with | nil => simp at h1 | cons _ _ => rfl
+  have hne2 : t2.isEmpty = false := by cases t2 with | nil => simp at h2 | cons _ _ => rfl
+  cases hp : p2weightX pow p with
+  | error e => rw [hp] at h; cases h
+  | ok w =>
+    rw [hp] at h
+    cases hd : distanceOf G dim with
+    | error e =>
+      rw [hd] at h
+      simp [bind, Except.bind, TrackObj.fresh, hne, hne2] at h
+    | ok dist =>
+      rw [hd] at h
+      obtain ⟨rows, he, hlen, _⟩ := dtw_spec dist w t1 t2 h1 h2
+      have he' : dtwOn dist w (freshRows t1) t1 t2 = some _ := he
+      simp only [bind, Except.bind, TrackObj.fresh, Bool.false_eq_true, if_false, hne, hne2, he'] at h
+      cases h
+      exact hlen
+
+theorem matchCallX_rows_length (pow : α → α → α) (G : Geom α) (big : α) (mode : Nat) (hm : mode ≠ 3) (p : PArgX α)
+    (dim : DimArg α) (t1 t2 : List (Pt α)) (h1 : 0 < t1.length) (h2 : 0 < t2.length) (o : Out α)
+    (h : matchCallX pow G big mode p dim (TrackObj.fresh t1) t2 = .ok o) : o.rows.length = t1.length := by
+  unfold matchCallX at h
+  by_cases m1 : mode = 1
+  · simp [m1] at h
+  · by_cases m4 : mode = 4
+    · simp only [m1, m4, if_true, if_false] at h
+      exact warpOnX_rows_length pow G big _ dim t1 t2 h1 h2 o h
+    · by_cases m2 : mode = 2
+      · simp only [m1, m4, m2, if_true, if_false] at h
+        exact warpOnX_rows_length pow G big _ dim t1 t2 h1 h2 o h
+      · simp [m1, m4, m2, hm] at h
+
+end historyX
+
 end TV.DTW
